@@ -225,9 +225,12 @@ def run(pid, tier, seed, replay=None):
                 for c, b, err in info["bins"]:
                     if b is None:
                         continue
-                    io2 = core.run_lines(b, extra, env=c.get("env"), args=c.get("args"))
+                    lines2 = prop.lines_for(c, extra) if hasattr(prop, "lines_for") else extra
+                    io2 = core.run_lines(b, lines2, env=c.get("env"), args=c.get("args"))
                     if two_phase:
                         mo2 = core.run_lines(info["zmodel"], [cs + "\t" + io for cs, io in zip(extra, io2)])
+                    elif hasattr(prop, "model_lines_for"):
+                        mo2 = core.run_lines(info["zmodel"], prop.model_lines_for(c, extra))
                     d2, v2, _ = evaluate(prop, extra, mo2, io2, known_classes)
                     if v2:
                         found = v2[0]
